@@ -125,6 +125,37 @@ theorem C14_order_independent {apps apps' : List (String × Table)} (hp : apps.P
     (hnd : (apps.map (·.1)).Nodup) (t : LTy) : applySeq apps t = applySeq apps' t :=
   applySeq_perm hp hnd t
 
+/-- **Re-application is idempotent.** A pass that succeeded is a fixed point of itself: applying
+    the same namespace with the same table again (e.g. `ApplySelf()` a second time) returns the very
+    same tree - no link changes, no panic. -/
+theorem C14_reapply_idempotent (w : String) (ns : String) (tbl : Table) (p : Path) (t t' : LTy)
+    (h : applyNs w tbl ns p t = .ok t') : applyNs w tbl ns p t' = .ok t' :=
+  applyNs_idem w ns t tbl p t' h
+
+/-- in `Out` form: `applyNs … (applyNs … t) = applyNs … t` for successful applications -/
+theorem C14_reapply_idempotent_bind (w : String) (ns : String) (tbl : Table) (p : Path) (t t' : LTy)
+    (h : applyNs w tbl ns p t = .ok t') :
+    (applyNs w tbl ns p t).bind (applyNs w tbl ns p) = applyNs w tbl ns p t := by
+  rw [h]; exact applyNs_idem w ns t tbl p t' h
+
+/-- `ApplySelf()` on a scope right after its construction changes nothing -/
+theorem C14_applySelf_after_build (w : String) (p : Path) (objs : LTy) (root : String) (t₁ : LTy)
+    (h : build w p (.scope objs root) = .ok t₁) : applyNs w [] "" p t₁ = .ok t₁ := by
+  simp only [build] at h
+  obtain ⟨x, _, hx⟩ := Out.bind_eq_ok h
+  exact applyNs_idem w "" _ [] p t₁ hx
+
+/-- **Re-applying anything already applied, at any later time, changes nothing.** After any
+    sequence of passes (repetitions allowed, the self namespace included) in which a namespace is
+    always applied with the same table, the resulting tree is a fixed point of every pass of the
+    sequence. Together with `C14_order_independent`: only the SET of (namespace, table) pairs
+    applied matters, not order and not multiplicity. -/
+theorem C14_reapply_anywhere (apps : List (String × Table)) (t r : LTy) (ns : String) (tbl : Table)
+    (h : applySeq apps t = .ok r) (hmem : (ns, tbl) ∈ apps) (hcons : ∀ b ∈ apps, b.1 = ns → b.2 = tbl) :
+    applySeq [(ns, tbl)] r = .ok r := by
+  simp only [applySeq]
+  rw [applySeq_fix apps t r ns tbl h hmem hcons]; rfl
+
 /-- **`ValidateReferences` succeeds exactly when every reference is linked** - at any depth:
     `occs` lists the references below properties, list items, map keys and values, one-of members,
     and in ALL objects of every (inner) scope, reachable from the root object or not. -/
@@ -575,6 +606,10 @@ end Arca
 #print axioms Arca.C14_other_ns_untouched
 #print axioms Arca.C14_apply_ok_iff
 #print axioms Arca.C14_order_independent
+#print axioms Arca.C14_reapply_idempotent
+#print axioms Arca.C14_reapply_idempotent_bind
+#print axioms Arca.C14_applySelf_after_build
+#print axioms Arca.C14_reapply_anywhere
 #print axioms Arca.C14_validate_refs_iff
 #print axioms Arca.C14_run_env_is_lexical
 #print axioms Arca.C14_inline_ref
